@@ -696,6 +696,8 @@ def gen_simd_target(sel, width_all=True):
             cases.append(gen.malformed(r, ["portable", sel, "auto"]))
             cases.append(gen.observers(r, [sel, "auto"]))
             cases.append(gen.default_case(r, ["portable", sel, "auto"], std=False))
+        if sel == "neon":
+            cases.append(gen.neon_intrin_cases(r, reps=(3 if tier == "quick" else 40)))
         if sel == "wasm":
             # direct conformance of the modelled simd128 intrinsics (swizzle only where the executor implements it)
             cases.append(gen.wasm_intrin_cases(r, reps=(3 if tier == "quick" else 40), swizzle=bool(info.get("real_engine"))))
